@@ -89,6 +89,7 @@ type ecOp struct {
 	sets      []*ecCookie
 	vals      []string
 	fail      bool
+	flipNext  bool   // the handler changes what Config.Next looks at (after the middleware has decided)
 	dup       bool   // the handler sets the first cookie twice (other path first): the later call replaces the earlier
 	path      string // "/set" or "/refresh"
 	seen      map[string]string
@@ -118,6 +119,7 @@ type ecEnv struct {
 	oldKey     string
 	otherLen   int
 	except     []string
+	useNext    bool
 	keyChange  bool
 	faults     bool
 	yields     bool
@@ -258,6 +260,11 @@ func (env *ecEnv) mkApp(k string, wrap bool) *fiber.App {
 	app := fiber.New()
 	if k != "" {
 		cfg := encryptcookie.Config{Key: k}
+		if env.useNext {
+			// false when the request comes in (so the middleware is in force for it); handlers may change
+			// what it looks at while they run
+			cfg.Next = func(c fiber.Ctx) bool { return c.Locals("serve-raw") != nil || strings.HasPrefix(c.Path(), "/assets/") }
+		}
 		if env.except != nil {
 			cfg.Except = append([]string(nil), env.except...)
 		}
@@ -273,6 +280,11 @@ func (env *ecEnv) mkApp(k string, wrap bool) *fiber.App {
 				c.Cookie(&fiber.Cookie{Name: ck.name, Value: op.vals[i], Path: "/elsewhere"})
 			}
 			c.Cookie(&fiber.Cookie{Name: ck.name, Value: op.vals[i], Path: "/", HTTPOnly: ck.httpOnly, MaxAge: ck.maxAge})
+		}
+		if env.useNext && op.flipNext {
+			// the handler hands the rest of the work to something keyed by locals / another path
+			c.Locals("serve-raw", true)
+			c.Path("/assets/app.js")
 		}
 		if op.fail {
 			return fiber.NewError(fiber.StatusInternalServerError, "handler failed after setting cookies")
@@ -323,7 +335,7 @@ func (cl *ecClient) genValue(i int) (string, string) {
 }
 
 func (cl *ecClient) setAll(list []*ecCookie, fail bool) *ecOp {
-	op := &ecOp{cl: cl, sets: list, fail: fail, path: "/set", dup: cl.s.Chance(150)}
+	op := &ecOp{cl: cl, sets: list, fail: fail, path: "/set", dup: cl.s.Chance(150), flipNext: cl.s.Chance(200)}
 	for _, c := range list {
 		op.vals = append(op.vals, c.plain)
 	}
@@ -845,6 +857,7 @@ func enccookieMain(s *simrt.Sim, info *harness.RunInfo) {
 	wrapped := concurrent || encFault || decFault || s.Chance(250)
 	env.yields = concurrent || (wrapped && s.Chance(300))
 	exceptAny := s.Chance(400)
+	env.useNext = s.Chance(300)
 	plans := make([]ecPlan, nclients)
 	for i := range plans {
 		p := &plans[i]
